@@ -23,8 +23,23 @@ TOL30 = F(1, 10 ** 30)
 
 
 def fl(x: float) -> str:
-    """floats travel as the exact n/d of their binary value"""
+    """floats travel as the exact n/d of their binary value; NaN and the infinities as "nan" / "inf" / "-inf" """
+    if x != x:
+        return "nan"
+    if x in (math.inf, -math.inf):
+        return "inf" if x > 0 else "-inf"
     return frac_str(F(x))
+
+
+def is_finite_num(x) -> bool:
+    """True for an ordinary number; False for NaN / sNaN / +-Infinity (float or Decimal).  Never raises and never relies on an ordering
+    comparison (NaN compares false with everything, Decimal NaN raises on <)."""
+    if isinstance(x, Decimal):
+        return x.is_finite()
+    try:
+        return math.isfinite(x)
+    except (TypeError, ValueError, OverflowError):
+        return True          # ints beyond float range are finite
 
 
 
@@ -199,6 +214,21 @@ class V1World:
     def object_fields(self):
         """names of everything stored on the live market object (a new attribute = per-object state the model does not know)"""
         return sorted(vars(self.market))
+
+    def step_request(self, pre, env, op):
+        return {"fn": "gmx1.step", "env": env, "state": {"glp": pre["glp"], "reward": pre["reward"], "wallet": pre["wallet"]}, "op": v1_op_json(op, self),
+                "allowNeg": bool(self.allow_negative)}
+
+    def nonfinite(self):
+        """names of the numbers of the state that are NaN or infinite"""
+        m = self.market
+        return [n for n, v in [("glp_amount", m.glp_amount), ("reward", m.reward)] + [(f"wallet[{k.name}]", a.balance) for k, a in self.broker.assets.items()]
+                if not is_finite_num(v)]
+
+    def safe_snapshot(self):
+        """NaN-safe snapshot (strings): holdings, reward, wallet in order, number of action records"""
+        m = self.market
+        return (str(m.glp_amount), str(m.reward), tuple((k.name, str(a.balance)) for k, a in self.broker.assets.items()), len(self.acts))
 
     def snapshot(self):
         m = self.market
@@ -594,6 +624,13 @@ class V2World:
     def dump(self):
         return {"amount": float(self.market.amount), "wallet": [[k.name, v.balance] for k, v in self.broker.assets.items()]}
 
+    def nonfinite(self):
+        return [n for n, v in [("amount", self.market.amount)] + [(f"wallet[{k.name}]", a.balance) for k, a in self.broker.assets.items()]
+                if not is_finite_num(v)]
+
+    def safe_snapshot(self):
+        return (repr(float(self.market.amount)), tuple((k.name, str(a.balance)) for k, a in self.broker.assets.items()), len(self.acts))
+
     def snapshot(self):
         a = self.market.amount
         return (F(a) if math.isfinite(a) else repr(a), tuple((k.name, F(v.balance)) for k, v in self.broker.assets.items()), len(self.acts),
@@ -651,7 +688,7 @@ class V2World:
 
     def events_request(self, state, pool0, events, mode="float"):
         return {"fn": "gmx2.events", "mode": mode, "config": self.cfg_json(), "pool0": pool0, "state": state,
-                "longKey": self.long.name, "shortKey": self.short.name, "events": events}
+                "longKey": self.long.name, "shortKey": self.short.name, "events": events, "allowNeg": bool(self.allow_negative)}
 
     def request(self, op, mode="float"):
         d = self.dump()
@@ -661,7 +698,8 @@ class V2World:
         elif op["kind"] == "withdraw":
             oj["amount"] = None if op["amount"] is None else fl(float(op["amount"]))
         return {"fn": "gmx2.step", "mode": mode, "config": self.cfg_json(), "pool": self.pool_json(),
-                "state": {"amount": fl(d["amount"]), "wallet": d["wallet"]}, "longKey": self.long.name, "shortKey": self.short.name, "op": oj}
+                "state": {"amount": fl(d["amount"]), "wallet": d["wallet"]}, "longKey": self.long.name, "shortKey": self.short.name, "op": oj,
+                "allowNeg": bool(self.allow_negative)}
 
 
 def lp_dict(r):
@@ -864,3 +902,156 @@ def state_eq_v2(ans_state, dump, new_actions, tol=FTOL):
             if ik != m_["kind"] or any(not fclose(iv[k], m_["r"][k], tol) for k in iv):
                 diffs.append(f"action impl {ik} {iv} model {m_}")
     return diffs
+
+
+# ---------------------------------------------------------------------------------------------------- invalid-number arguments
+# NaN compares false with everything (float) or raises on ordering (Decimal): a guard written as `if amount < 0` / `if amount > held`
+# lets it through, and every balance it touches becomes NaN.  This stream feeds every entry point that takes an amount with
+# numbers that are not ordinary finite numbers, in both wallet modes, and looks at the state with predicates that cannot pass on NaN.
+SPECIAL_FLOATS = [float("nan"), float("inf"), float("-inf"), -0.0, 1e90, -1e90]      # beyond ~1e100 `diffUsd ** exponent` raises OverflowError (not modelled)
+SPECIAL_DECIMALS = [Decimal("NaN"), Decimal("-NaN"), Decimal("sNaN"), Decimal("Infinity"), Decimal("-Infinity"), Decimal("1E+400"), Decimal("-1E+400"),
+                    Decimal("-0"), Decimal("1E-400")]
+
+
+def special_class(x):
+    if isinstance(x, Decimal):
+        if x.is_snan():
+            return "D:sNaN"
+        if x.is_nan():
+            return "D:NaN"
+        if x.is_infinite():
+            return "D:+Inf" if x > 0 else "D:-Inf"
+        if x == 0:
+            return "D:-0"
+        return "D:huge" if abs(x) > 1 else "D:tiny"
+    if x != x:
+        return "f:nan"
+    if math.isinf(x):
+        return "f:+inf" if x > 0 else "f:-inf"
+    return "f:-0" if x == 0 else ("f:huge" if x > 0 else "f:-huge")
+
+
+def ser_num(x):
+    return ["D", str(x)] if isinstance(x, Decimal) else ["F", repr(float(x))]
+
+
+def special_cases(rng, n):
+    """yields (version, world, op, class): a real market in a random state (0-2 accepted ordinary operations first), wallet mode strict or
+    allow_negative_balance, and ONE call whose amount argument is special"""
+    for i in range(n):
+        an = rng.random() < 0.5
+        if rng.random() < 0.4:
+            for _ in range(50):
+                row, names, kind = gen_v1_row(rng)
+                if F(row["aum"]) >= 10 ** 24 and F(row["glp"]) > 10 ** 12 and row["usdg"] > 0:
+                    break
+            wallet = [(x, rand_dec(rng, -2, 5, 6)) for x in names if rng.random() < 0.9]
+            w = V1World(row, names, wallet, glp=rng.choice([None, rand_dec(rng, -2, 5, 18)]), allow_negative=an)
+            for _ in range(rng.choice([0, 0, 1, 2])):
+                o, _ = gen_v1_op(rng, w)
+                w.apply(o)
+            x = rng.choice(SPECIAL_DECIMALS + SPECIAL_FLOATS[:3]) if rng.random() < 0.85 else rng.choice(SPECIAL_FLOATS)
+            kind = rng.choice(["buy", "sell"])
+            yield 1, w, {"kind": kind, "tok": rng.choice(names), "amount": x}, f"{kind}:{special_class(x)}"
+        else:
+            for _ in range(50):
+                pool, pcls = gen_v2_pool(rng)
+                if not pcls.startswith("zero"):
+                    break
+            wallet = [(t, b) for t, b in (("weth", Decimal(str(round(_logu(rng, -2, 4), 6)))), ("usdc", Decimal(str(round(_logu(rng, 0, 7), 4))))) if rng.random() < 0.9]
+            w = V2World(pool, gen_v2_cfg(rng), wallet, amount=rng.choice([0.0, round(_logu(rng, -2, 6), 4)]), series=rng.random() < 0.2 and all(v is not None for v in pool.values()),
+                        allow_negative=an)
+            for _ in range(rng.choice([0, 0, 1, 2])):
+                o, _ = gen_v2_op(rng, w)
+                w.apply(o)
+            x = rng.choice(SPECIAL_FLOATS) if rng.random() < 0.6 else rng.choice(SPECIAL_DECIMALS)
+            c = rng.random()
+            other = rng.choice([0.0, 0.0, round(_logu(rng, -3, 1), 6)])
+            if c < 0.3:
+                op, k = {"kind": "deposit", "long": x, "short": other}, "deposit.long"
+            elif c < 0.6:
+                op, k = {"kind": "deposit", "long": other, "short": x}, "deposit.short"
+            elif c < 0.7:
+                op, k = {"kind": "deposit", "long": x, "short": rng.choice(SPECIAL_FLOATS)}, "deposit.both"
+            else:
+                op, k = {"kind": "withdraw", "amount": x}, "withdraw"
+            yield 2, w, op, f"{k}:{special_class(x)}"
+
+
+def special_ser_op(op):
+    return {k: (ser_num(v) if k in ("amount", "long", "short") and v is not None else v) for k, v in op.items()}
+
+
+def special_de_op(o):
+    return {k: ((Decimal(v[1]) if v[0] == "D" else float(v[1])) if k in ("amount", "long", "short") and v is not None else v) for k, v in o.items()}
+
+
+def special_check(ctx, ver, w, op, pfx, reject_intact=False, rep=None):
+    """apply `op` to the live world and evaluate, NaN-safely: (a) no number of the state (share holding, reward, wallet balance) may be NaN or
+    infinite afterwards, (b) [reject_intact] a call that raised left the state as it was.  Returns (outcome, result, actions, pre-dump, bad?)."""
+    spec = w.spec()
+    rep = rep or {"world": spec, "special": [special_ser_op(op)]}
+    pre = w.dump()
+    s0 = w.safe_snapshot()
+    out, res, acts = w.apply(op)
+    s1 = w.safe_snapshot()
+    bad = w.nonfinite()
+    name = {"buy": "buy_glp", "sell": "sell_glp"}.get(op["kind"], op["kind"])
+    args = ", ".join(repr(op[k]) for k in ("tok", "amount", "long", "short") if k in op)
+    if bad:
+        ctx.violate(f"{pfx}v{ver}.{name}.nonfinite_state", f"{name}({args}) [allow_negative_balance={w.allow_negative}] -> {out}: {', '.join(bad)} is no longer a finite number "
+                    f"(state {s0} -> {s1})"[:700], rep)
+    if reject_intact and out != "ok" and s0 != s1:
+        ctx.violate(f"{pfx}v{ver}.{op['kind']}.{out}", f"{name}({args}) rejected with {out} but state changed: {s0} -> {s1}"[:700], rep)
+    return out, res, acts, pre, bool(bad)
+
+
+def special_stream(ctx, n, pfx, reject_intact=False):
+    """the whole stream + correspondence with the model where the model can take the argument (v2: IEEE doubles incl. NaN/inf; v1: finite
+    Decimals).  `pfx` prefixes the violation keys ("" for C17, "gmx." for C03/C04)."""
+    import warnings
+    warnings.filterwarnings("ignore", category=RuntimeWarning)        # numpy scalars (pandas rows) warn where Python floats overflow silently
+    pend = []
+    for ver, w, op, cls in special_cases(ctx.rng, n):
+        req = None
+        try:
+            if ver == 2:
+                req = w.request(op)
+            elif isinstance(op["amount"], Decimal) and op["amount"].is_finite():
+                req = w.step_request(w.dump(), w.env_json(), op)
+        except (ValueError, OverflowError):
+            req = None                                       # float(Decimal('sNaN')) raises: the call itself will raise the same way
+        out, res, acts, pre, bad = special_check(ctx, ver, w, op, pfx, reject_intact)
+        ctx.impl_traces += 1
+        ctx.case(f"v{ver}:special:{cls}:{out}:{'allow-negative' if w.allow_negative else 'strict'}{':NONFINITE-STATE' if bad else ''}",
+                 {"op": special_ser_op(op), "outcome": out})
+        if req is not None:
+            pend.append((ver, op, cls, out, acts, None if bad else w.dump(), {"world": w.spec() if not bad else None, "special": [special_ser_op(op)]}, req))
+    if not ctx.driver_ok or not pend:
+        return
+    for (ver, op, cls, out, acts, post, rep, req), a in zip(pend, driver_json([p[-1] for p in pend], exe="driver_gmx")):
+        if "error" in a:
+            ctx.disagree(f"special {cls}: driver error {a['error']}"[:300], rep)
+        elif a["outcome"] != out:
+            ctx.disagree(f"v{ver} special {cls}: outcome impl {out} model {a['outcome']}", rep)
+        elif post is None:
+            ctx.disagree(f"v{ver} special {cls}: the implementation's state holds NaN/inf, the model's does not", rep)
+        else:
+            d = state_eq_v1(a["state"], post, acts) if ver == 1 else state_eq_v2(a["state"], post, acts)
+            if d:
+                ctx.disagree(f"v{ver} special {cls} ({out}): " + "; ".join(d)[:500], rep)
+
+
+def special_replay(case, pfx="", reject_intact=False):
+    """re-run a stored `special` case; True = holds"""
+    from common import Ctx
+    sub = Ctx("C17", "quick", 0, False)
+    sp = case["world"]
+    w = V1World.from_spec(sp) if sp["ver"] == 1 else V2World.from_spec(sp)
+    for o in case["special"]:
+        op = special_de_op(o)
+        out, *_ = special_check(sub, sp["ver"], w, op, pfx, reject_intact, rep={})
+        print(f"   {op} -> {out}; state {w.safe_snapshot()}")
+    for v in sub.violations:
+        print("  ", v["key"], v["what"][:300])
+    return not sub.violations
